@@ -831,8 +831,7 @@ fn main() {
             run_scale_chain(&mut w, &mut g, false, 400, &[396, 368, 364]);
             run_scale_chain(&mut w, &mut g, false, 800, &[796]);
             // scale-out through the region where source masters already hold exactly their final count (from 91 chunks on)
-            run_scale_chain(&mut w, &mut g, false, 360, &[364, 368, 372]);
-            run_scale_chain(&mut w, &mut g, false, 728, &[732, 736]);
+            run_scale_chain(&mut w, &mut g, false, 360, &[364, 368]);
             run_scale_chain(&mut w, &mut g, true, 200, &[196, 100, 96, 120]);
         } else {
             run_scale_chain(&mut w, &mut g, false, 64, &[60, 56, 28, 24, 8, 4, 16, 12]);
